@@ -557,6 +557,12 @@ def run(ctx: Ctx, rep: Report, tier: str) -> None:  # noqa: C901
     renderer_falls_back(ctx, rep)
     grammar_reads_protocols(ctx, rep, prot_tables)
     tokens_are_the_words(ctx, rep)
+    # R09.15 every number 1..65535 is accepted as an operand (C08 R08.8): the name chosen for 65535 is a number
+    from .c08 import operand_range
+
+    sub88 = Report("C09")
+    operand_range(ctx, sub88)
+    rep.absorb(sub88, "R09.15")
     # R09.11 a platform switch re-reads text rendered under the NEW platform's tables (C02 R02.8): text rendered before the
     # switch carries the old platform's names, which the new platform's table may not have
     from .c02 import render_after_switch
